@@ -17,6 +17,7 @@ ASSUMPTIONS = ["feature values are integers (distinct primes), so every monomial
 RULE = ("term lists over {x,a} up to degree 5 with numeric constants; namespaces: dense prime vectors (0-6), scalars, None, absent, sparse dicts, str-valued features; "
         "non-trivial = at least one term of degree>=1 with a non-empty namespace; distinct by (terms, inputs)")
 
+BIG = [1000000007, 998244353, 2147483647, 1000000000039, 4294967311, 999999937, 100000000000000003]
 PRIMES = [2, 3, 5, 7, 11, 13, 17, 19, 23, 29, 31, 37, 41, 43]
 
 def fingerprints():
@@ -40,6 +41,7 @@ def gen_ns(rng, mode):
     """mode: 'dense' or 'sparse' hint"""
     k = rng.random()
     ps = rng.sample(PRIMES, len(PRIMES))
+    if rng.random() < 0.12: ps = rng.sample(BIG, len(BIG)) + ps      # integer features whose products are far beyond 2**53: the expansion is exact, not a binary64 approximation
     if k < 0.08: return None
     if k < 0.14: return "ABSENT"
     if k < 0.22: return rng.choice([ps[0], ps[1], 0, 1])             # scalar (0 is a legal feature value)
